@@ -25,6 +25,7 @@ import (
 
 	"verif/harness/core"
 	_ "verif/harness/codecheck"
+	_ "verif/harness/comp"
 	_ "verif/harness/fdcheck"
 	_ "verif/harness/gsim"
 	"verif/harness/props"
